@@ -31,7 +31,7 @@ var pkgPool = []string{
 	"github.com/foo/bar", "github.com/maruel/panicparse/v2/stack", "gopkg.in/yaml.v2", "example.com",
 	"example.com/a.b/c.d", "golang.org/x/sys/unix", "héllo/wörld", "k8s.io/client-go/tools/cache",
 	"a b/c d", "weird/pct%41", `q"uote/p`, "dash-ed/under_score", "github.com/x/c++lib", "v.io/x/ref.v1",
-	"gopkg.in/a.v1/b.v2", "x/~tilde", "vendor/golang.org/x/net/http2",
+	"gopkg.in/a.v1/b.v2", "x/~tilde", "vendor/golang.org/x/net/http2", "github.com/foo/bar/vendor/golang.org/x/net/http2", "a/vendor/b/c",
 }
 
 var namePool = []string{
@@ -47,6 +47,8 @@ var filePool = []string{
 	"/home/user/src/app/main.go", "C:/Users/x/go/src/a/b.go", "/path with space/x y.go", "/a/b/asm_amd64.s", "/a/cgo/gcc_linux.c",
 	"/dir.go:12/f.go", "/ünï/cödé.go", "/tmp/go-build123/b001/_test/_testmain.go", "/a.go", "/root/go/pkg/mod/github.com/x/y@v1.2.3/z.go",
 	"/w/a.b.c/d.e.go", "D:/a b/c.go", "/x/y.go.go",
+	// same directory and file name below different parents (equal DirSrc, different paths)
+	"/other/checkout/app/main.go", "/root/go/pkg/mod/github.com/x/y@v1.3.0/z.go", "/usr/local/go/src/runtime/proc.go",
 }
 
 // Interesting argument values: small, around the pointer classification floor and ceiling,
